@@ -24,9 +24,6 @@ theorem intText_nonneg {b : Int} (h : 0 ≤ b) : intText b = natText b.toNat := 
   | ofNat n => rfl
   | negSucc n => omega
 
-theorem catching_ok {α : Type} (cl : List String) (a : α) (h : α) :
-    catching cl (Except.ok a) h = .ok a := rfl
-
 theorem plainInt_natText (n : Nat) : plainInt (natText n) = .ok (n : Int) := by
   have := plainInt_intText (Int.ofNat n)
   simpa [intText] using this
